@@ -57,6 +57,7 @@ def wstep (w : World) : Op → Ans → List World
     reopenAt w.log w.lo w.lo ++ reopenAt (w.log ++ [b]) w.lo w.lo
   | .crashAdv _, .crashed true _ _ _ =>
     reopenAt w.log w.lo (if w.cur < w.log.length then max w.lo (w.cur + 1) else w.lo)
+  | .crashSeg _ _, .crashed true _ _ _ => reopenAt w.log w.lo w.lo   -- the entry itself was never written
   | .stat, .stat _ _ _ _ => [w]
   | _, _ => []
 
